@@ -90,13 +90,14 @@ fn run(args: &[String]) {
     if let Some(e) = sc_err {
         rep.inconclusive.push(format!("harness selfcheck failed: {}", e));
     } else {
-        // the thorough tier's random groups are sized for roughly two minutes per build profile on 16 cores
+        // the thorough tier's random groups are sized for a few minutes per build profile on 16 idle cores
+        // (re-measured after the transport dimensions of rounds 4-7 made a case several times dearer)
         let mult = std::env::var("VMON_THOROUGH_MULT").ok().and_then(|s| s.parse().ok()).unwrap_or(match prop.as_str() {
             "C01" => 5.0,
-            "C02" => 40.0,
-            "C03" => 40.0,
+            "C02" => 25.0,
+            "C03" => 30.0,
             "C04" => 10.0,
-            "C05" => 40.0,
+            "C05" => 20.0,
             "C06" => 15.0,
             "C07" => 12.0,
             "C08" => 40.0,
@@ -104,15 +105,16 @@ fn run(args: &[String]) {
             "C10" => 25.0,
             "C11" => 60.0,
             "C12" => 5.0,
-            "C14" => 100.0,
+            "C14" => 30.0,
             "C15" => 25.0,
             "C16" => 15.0,
             "C17" => 20.0,
-            "C18" => 8.0,
+            "C18" => 5.0,
             "C19" => 40.0,
             "C20" => 30.0,
             _ => 1.0,
         });
+        core::THOROUGH.store(tier == "thorough", std::sync::atomic::Ordering::Relaxed);
         let ctx = Ctx { seed, thorough: tier == "thorough", threads, only, scale, miri, tls_server: None, thorough_mult: mult };
         match props::run(&prop, &ctx) {
             Some(r) => rep = r,
